@@ -122,6 +122,11 @@ def build(case):
                 extra.add(name)
         if 'mat' in extra:
             new.mat = rng.randint(1, nmat)
+            if rng.random() < 0.2:
+                # BUT MAT=0 turns the copy into a void cell
+                new.mat = 0
+                new.rho = None
+                extra.discard('rho')
         if 'rho' in extra:
             new.rho = f'-{rng.randint(1, 9)}.{rng.randint(1, 9)}'
             roll = rng.random()
@@ -129,6 +134,9 @@ def build(case):
                 new.rho += '0' * rng.randint(1, 2)          # -1.50
             elif roll < 0.45:
                 new.rho += rng.choice(['-1', 'd-1', 'E-1', 'e+1', '+1'])  # -6.5-1
+        if int(new.mat) == 0:
+            new.rho = None
+            extra.discard('rho')
         if int(new.mat) != 0 and new.rho is None:
             new.rho = '-1.1'
             extra.add('rho')
